@@ -172,9 +172,11 @@ class DataType(metaclass=_DataTypeMeta):
         """
         try:
             stream = _as_stream(buffer)
+            start = stream.tell()
             return cls._decode(stream)
         except Exception as err:
-            if isinstance(err, BufferEmptyError):
+            # the buffer is only "empty" if it ran out before any byte of this value was read
+            if isinstance(err, BufferEmptyError) and stream.tell() == start:
                 raise
             else:
                 raise DataError(
